@@ -243,7 +243,8 @@ pub fn member_of_value(v: Option<&Value>) -> Member {
         None => Member::Absent,
         Some(Value::Null) => Member::Null,
         Some(Value::String(s)) => match civil::parse(s) {
-            Some(t) => Member::Time { t, canonical: is_canonical_ts(s) },
+            // outside 0001..=9998 (as UTC) only the rejecting direction is demanded
+            Some(t) => Member::Time { t, canonical: is_canonical_ts(s) && t >= civil::ns_from_ymd_hms(1, 1, 2, 0, 0, 0, 0) && t < civil::ns_from_ymd_hms(9999, 1, 1, 0, 0, 0, 0) },
             None => {
                 if only_separator_is_odd(s) {
                     Member::Dubious
@@ -758,9 +759,33 @@ fn step(cx: &mut Ctx, idx: usize, op: &Op, ob: &Obs) {
                         VOp::ValidateClaim(vs) => spec.validators.push(vs.clone()),
                         VOp::SetFooter(f) => spec.footer = Some(f.clone()),
                         VOp::SetAssertion(a) => spec.assertion = Some(a.clone()),
+                        _ => {}
                     }
                 }
             }
+        }
+        (Op::Reconfigure { v, .. }, Obs::ReconfigureResolved { applied, as_op }) => {
+            cx.j.trace.push(format!("reconfigure_prefix:{}", applied));
+            if *applied {
+                cx.j.fire("ReconfigureSameBufferSlice");
+                if let Some(spec) = cx.verifiers.get_mut(v) {
+                    match as_op {
+                        VOp::SetFooter(f) => spec.footer = Some(f.clone()),
+                        VOp::SetAssertion(a) => spec.assertion = Some(a.clone()),
+                        _ => {}
+                    }
+                }
+            }
+        }
+        (Op::DrawKeys { n }, Obs::Draws { ok, failed, distinct, constant_positions, worst_bit_dev_centisigma }) => {
+            cx.j.trace.push(format!("draw_keys:{}", n));
+            cx.j.fire("EntropyObserve");
+            cx.j.probe("observe_arm_direct_draws");
+            cx.j.nontrivial |= cx.is("C10");
+            cx.clause("C10", "entropy_draws_succeed", idx, *failed == 0 && *ok == *n, "every draw of the random-key constructor succeeds", format!("{} ok, {} failed of {}", ok, failed, n), &[]);
+            cx.clause("C10", "entropy_draws_pairwise_distinct", idx, distinct == ok, "all 32-byte draws of the builders' nonce source distinct", format!("{} distinct among {} draws", distinct, ok), &[]);
+            cx.clause("C10", "entropy_draws_no_constant_byte", idx, *constant_positions == 0, "no byte position constant", format!("{} constant positions", constant_positions), &[]);
+            cx.clause("C10", "entropy_draws_bit_frequency", idx, *worst_bit_dev_centisigma <= 1000, "every bit's one-count within n/2 +- 10 sigma", format!("worst deviation {:.2} sigma", *worst_bit_dev_centisigma as f64 / 100.0), &[]);
         }
         (Op::KeyParse { n, text }, Obs::KeyParse { outcome }) => {
             cx.j.trace.push(format!("key_parse:{}:{}", n, outcome.verdict_class()));
@@ -1604,7 +1629,8 @@ fn judge_readback(cx: &mut Ctx, idx: usize, root: &TokenInfo, out: &Outcome) {
         let mut ok = true;
         let mut bad = String::new();
         for k in snap.supplied.iter() {
-            if k == "exp" && snap.ack {
+            if (k == "exp" && snap.ack) || k.is_empty() {
+                // (the builder documents that it ignores empty keys)
                 continue;
             }
             match (snap.claims.get(k), o.get(k)) {
